@@ -76,6 +76,10 @@ def units(tier):
                     us.append({"name": f"xwin{k}_{name}_o{off}", "shape": {"kind": "win", "seed": name, "side": other, "pre": "opened", "off": off, "k": k, "cut": None}})
         us.append({"name": f"trunc_{name}", "shape": {"kind": "trunc", "seed": name, "side": side, "pre": pre}})
         us.append({"name": f"trail_{name}", "shape": {"kind": "trail", "seed": name, "side": side, "pre": pre}})
+    for what in ("response_id", "request_id", "result_code", "search_limits", "bind_version", "paged_size"):
+        for vn in ("d4400", "neg_d4400", "b1024"):
+            for side, pre in (("client", "search"), ("server", "fresh"), ("server", "opened")):
+                us.append({"name": f"huge_{what}_{vn}_{side}_{pre}", "shape": {"kind": "huge", "what": what, "value": vn, "side": side, "pre": pre}})
     # prior session histories: two application calls (accepted or refused), then a delivered
     # message of every kind whose id is symbolic
     import itertools
@@ -128,6 +132,31 @@ def body(ctx, shape):
         code = ctx.int("code", 0, 80)
         data = S_.message_for(ctx, shape["recv"], mid, code).pack(S_.po(ctx))
         common.checked_receive(ctx, sess_, side, data)
+        return
+    if kind == "huge":
+        # integers far beyond any machine word (ids, result codes, limits of thousands of octets):
+        # whatever the session does with them - compare, store, put into an error text - only a
+        # list or ProtocolError may come out (CPython refuses to print ints of > 4300 digits)
+        M, F = ctx.L.messages, ctx.L.filter
+        big = {"d4400": 10**4400, "neg_d4400": -(10**4400), "b1024": 2**1024}[shape["value"]]
+        R = M.LDAPResult(M.LDAPResultCode.SUCCESS, "", "")
+        msgs_ = {
+            "response_id": M.ExtendedResponse(big, [], R, "1.2", None),
+            "request_id": M.ExtendedRequest(big, [], "1.2", None),
+            "result_code": M.ExtendedResponse(1, [], M.LDAPResult(M.LDAPResultCode(big), "", ""), None, None),
+            "search_limits": M.SearchRequest(1, [], "", M.SearchScope.BASE, M.DereferencingPolicy.NEVER, big, big, False, F.FilterPresent("o"), []),
+            "bind_version": M.BindRequest(1, [], big, "", ctx.L.auth.SimpleCredential("p")),
+            "paged_size": M.SearchResultDone(1, [ctx.L.controls.PagedResultControl(False, big, b"c")], R),
+        }
+        data = bytes(msgs_[shape["what"]].pack(M.PackingOptions()))
+        for cut in (None, len(data) // 2):
+            sess_ = common.make_session(ctx, side, pre)
+            if cut is None:
+                common.checked_receive(ctx, sess_, side, data)
+            else:
+                r = common.checked_receive(ctx, sess_, side, data[:cut], "#1")
+                if r[0] == "ok":
+                    common.checked_receive(ctx, sess_, side, data[cut:], "#2")
         return
     if kind == "trail":
         data = common.with_trailing_element(ctx, common.seed_bytes(ctx, shape["seed"]), "x")
